@@ -139,7 +139,7 @@ def doPrint (pg? : Option Page) (table : Bool) (fmt : String) (size : Int) (v : 
   | some pg =>
     if !(knownFormats.contains fmt) || !(v.all fun x => inRange x (-100000) 100000) then "rej parse" else
     if !table then "ok bounded" else
-    match printRegion (conv fmt) pg size (v.getD 0 0) (v.getD 1 0) (v.getD 2 0) (v.getD 3 0) with
+    match printRegion currentCfg (conv fmt) pg size (v.getD 0 0) (v.getD 1 0) (v.getD 2 0) (v.getD 3 0) with
     | .error f => s!"ok FAULT {repr f}"
     | .ok none => "ok 0 -"
     | .ok (some out) => s!"ok {out.length} {toHex out}"
@@ -157,7 +157,7 @@ def step (st : DSt) (ws : List String) : DSt × String :=
     (st, s!"ok tcw=12 tch=10 ccw=16 cch=26 text={textExtent} sizes={sizeNormal},{sizeDoubleWidth},{sizeDoubleHeight},{sizeDoubleSize},{sizeOverTop},{sizeOverBottom},{sizeDoubleHeight2},{sizeDoubleSize2} tgt=1,2,3,4,5 opaque=3")
   | "consts" :: _ => (st, s!"ok tcw=12 tch=10 ccw=16 cch=26 text={textExtent} sizes={sizeNormal},{sizeDoubleWidth},{sizeDoubleHeight},{sizeDoubleSize},{sizeOverTop},{sizeOverBottom},{sizeDoubleHeight2},{sizeDoubleSize2} tgt=1,2,3,4,5 opaque=3")
   | "probe" :: _ =>
-    (init, s!"ok wideclip={if currentCfg.wideClip then 1 else 0} nullguard={if currentCfg.nullGuard then 1 else 0}")
+    (init, s!"ok wideclip={if currentCfg.wideClip then 1 else 0} nullguard={if currentCfg.nullGuard then 1 else 0} e2big={if currentCfg.printE2big then 1 else 0} atone={if currentCfg.atOneByte then 1 else 0}")
   | "begin" :: rest =>
     (match rest with
     | [t, sz, hl, sl] =>
